@@ -1,6 +1,13 @@
 """C11 - sessions on one socket are isolated; one Accept per new peer (DESIGN.md section 5, C11)."""
 import vcheck as V
 
+META = {
+    "engine": "listener",
+    "technique": "Coq invariant and frame proofs over all event interleavings of the transcribed listener demultiplexer (abstract sessions, abstract gate) + extraction-based differential replay of a real listener driven synchronously",
+    "level_text": "Machine-checked for an arbitrary address type, session type and integrity gate, over every interleaving of datagram arrivals from any addresses, Accept, the two halves of UDPSession.Close, Listener.Close and backlog closing: the session table has no duplicate keys and the backlog at most acceptBacklog entries; an event for address a changes at most the entry at a (every other session is EQUAL before and after) and the accept queue only by appending the session created at a; sessions ever queued for a = creation events at a (new peer with room: exactly one fresh session fed only the creating datagram; backlog full or listener closed: dropped with no state change); a session leaves the table only by its own Close or a reset from its own address; a foreign-conv datagram is ignored, closes, or replaces the session by a fresh one - never merged; the session at a is fed exactly the gate-passing datagrams from a with its conv since its creation; a dialled session accepts a datagram iff its source equals the remote. Tied to sess.go/readloop*.go by driving a real listener (direct packetInput calls and the real monitor goroutine over an in-memory PacketConn) with exhaustive short event orders and random multi-peer histories incl. reconnects, stale/forged/foreign datagrams, full backlog and parked Close, comparing table, queue order, created ids and per-session feed logs with the extracted model.",
+    "level_note": "Trusted: Coq kernel; extraction and ml/listener_driver.ml; the overlay harness. Sessions and the gate are abstract in the theorems (their inside is C01/C06); composition 'fed only its own peer's datagrams => reads only its peer's stream' relies on C01. The dialled-session source filter is a hand-written model compared through the real readLoop, not a generated skeleton; recvmmsg batch paths are not exercised. Boundaries B3 (OOB/parity with foreign conv) and B9 (no FIN) are modelled as coded.",
+}
+
 FILES = ["listener_test.go"]
 OBLIGATIONS = [
     "c11_invariant",
@@ -38,7 +45,7 @@ def run(ctx):
         "and in two steps) on one address next to a bystander; real client sessions whose captured datagrams are "
         "interleaved; %s random cases with 2-8 peers + 2 attacker addresses (raw / FEC data / parity / OOB / short / "
         "gate-failing datagrams, duplicates, reordering, reconnects, stale replays, other addresses using the same "
-        "conv, Accept, server-side Close atomic or parked between its two steps, Listener.Close) over ciphers "
+        "conv, Accept, server-side Close atomic or parked between its two steps, Listener.Close with its backlog drain) over ciphers "
         "nil/none(CRC)/aes/aes-gcm and listener FEC off/2+1/3+2; dialled sessions with 15 remote addresses x 24 "
         "probe sources through the real read loop; the deterministic Close/reset interleaving. non-trivial = %s"
         % (ex.get("orders_depth"), ex.get("random_cases"), ex.get("nontrivial_rule")))
@@ -47,8 +54,9 @@ def run(ctx):
         "c11_stream_isolation and c11_one_session_per_conversation additionally assume that kcp.conv never changes "
         "(sess_conv (sess_new c a) = c, sess_conv (sess_input s d) = sess_conv s)",
         "events are the atomic sections packetInput / Accept / Close step 1 (die closed) / Close step 2 (removeSession) "
-        "/ Listener.Close in any interleaving; a Close completing between packetInput's table lookup and its use of "
-        "the session differs from a modelled order only by the loss of that one datagram",
+        "/ Listener.Close step 1 (l.die closed) / one round of closeBacklog, in any interleaving; a Close completing "
+        "between packetInput's table lookup and its use of the session, or Listener.Close running between "
+        "packetInput's die test and its queue append, differs from a modelled order only by the fate of that one datagram",
         "the composition with C01 (the bytes Read from a session are a prefix of its peer's stream) is stated as "
         "'the session is fed exactly the datagrams of its own address and conversation'; the session model itself "
         "is C01's",
